@@ -17,26 +17,30 @@ def live_dispatcher(model, info, art):
     ld.subscribe(lambda n, d: out.append((n, d)))
     import time
     ld.start({"uid": "raw-start", "time": time.time()})
-    ld.descriptor({"uid": "raw1", "data_keys": {"x": {"dtype": "number", "shape": [], "source": "dev"}}, "name": "primary",
+    ld.descriptor({"uid": "raw1", "data_keys": {"x": {"dtype": "number", "shape": [], "source": "dev"},
+                                                 "w": {"dtype": "number", "shape": [], "source": "dev"}}, "name": "primary",
                    "run_start": "raw-start", "time": 0.0, "configuration": {}, "hints": {}, "object_keys": {}})
     ld.descriptor({"uid": "raw2", "data_keys": {"y": {"dtype": "number", "shape": [], "source": "dev"}}, "name": "primary",
                    "run_start": "raw-start", "time": 0.0, "configuration": {}, "hints": {}, "object_keys": {}})
     seq = 0
     order = ["b"] * kb + ["a"] * (ka + 1)
-    for s in order:
+    for j, s in enumerate(order):
         seq += 1
         key, raw = ("x", "raw1") if s == "a" else ("y", "raw2")
-        ld.event({"uid": f"e{seq}", "descriptor": raw, "data": {key: 1.0}, "timestamps": {key: 0.0}, "seq_num": seq,
+        data = {key: 1.0}
+        if s == "a" and j < len(order) - 1:
+            data["w"] = 2.0          # the last event of stream a has other data keys: the stream is re-described
+        ld.event({"uid": f"e{seq}", "descriptor": raw, "data": data, "timestamps": dict.fromkeys(data, 0.0), "seq_num": seq,
                   "time": 0.0, "filled": {}})
     ld.stop({"uid": "stop", "run_start": "raw-start", "exit_status": "success", "time": 0.0, "reason": ""})
     descs = {d["uid"]: d for n, d in out if n == "descriptor"}
     per_stream = {}
     for n, d in out:
         if n == "event":
-            per_stream.setdefault(d["descriptor"], []).append(d["seq_num"])
+            stream = "a" if "x" in d["data"] else "b"
+            per_stream.setdefault(stream, []).append(d["seq_num"])
     stop = [d for n, d in out if n == "stop"][0]
     numbering_ok = all(v == list(range(1, len(v) + 1)) for v in per_stream.values())
-    counts = sorted(len(v) for v in per_stream.values())
-    num_ok = sorted(stop["num_events"].values()) == counts
-    detail = f"{kb} events in stream b then {ka + 1} in stream a: seq_nums per descriptor {list(per_stream.values())}, stop.num_events={stop['num_events']}"
+    num_ok = stop["num_events"] == {k: len(v) for k, v in per_stream.items()}
+    detail = f"{kb} events in stream b then {ka + 1} in stream a: seq_nums per stream {list(per_stream.values())}, stop.num_events={stop['num_events']}"
     return ("contradicted" if numbering_ok and num_ok else "confirmed"), detail
